@@ -64,6 +64,7 @@ fn cfg_classes(sc: &Scenario, info: &mut CaseInfo) {
                 crate::rt::Policy::Walk { stay, .. } => format!("walk(stay<={})", stay),
                 crate::rt::Policy::Pct { change, .. } => format!("pct(d={})", change.len()),
                 crate::rt::Policy::Trace(_) => "trace".to_string(),
+                crate::rt::Policy::Stall { .. } => "stall_at_dereference".to_string(),
                 crate::rt::Policy::Deviate(d) => format!("systematic(deviations={})", d.len()),
             }
         ));
@@ -1396,7 +1397,7 @@ pub fn registry() -> Vec<PropDef> {
             id: "C16",
             parts: vec![Part {
                 name: "churn",
-                source: Source::Random { strategy: churn_strategy, cases: cases_fn!(1500, 30000) },
+                source: Source::Random { strategy: churn_strategy, cases: cases_fn!(4000, 40000) },
                 oracle: c16_oracle,
             }],
             rule: "N in {1,2}: writers on the Full boundary, 1-3 threads doing 4-60 rounds of add_stream/drop, clone/drop, unsubscribe, single<->multi conversion, idle handles that never operate; every block freed through the crate's allocator shim is quarantined and every instrumented access or dereference is checked against the freed ranges; non-trivial = at least one deferred-reclamation batch was freed while another thread was inside an API call",
